@@ -31,7 +31,7 @@ manifest = {
     },
     "engines": [
         {"name": "E1", "path": "harness/src/enumr.rs", "serves_properties": ["C01", "C02", "C03", "C04", "C05", "C07", "C08", "C13", "C14", "C15", "C16", "C18", "C19"], "kind_free_text": "bounded-exhaustive enumeration of expression trees x renderings x operator tables / token strings, executed on the real library with a symbolic (free term algebra) data type and compared with a reference model"},
-        {"name": "E2", "path": "harness/src/hist.rs", "serves_properties": ["C03", "C09", "C10", "C11", "C12", "C20"], "kind_free_text": "explicit-state exploration of operation histories on real objects (state = history, dedup key = full structural dump), reference model in lock-step"},
+        {"name": "E2", "path": "harness/src/hist.rs", "serves_properties": ["C03", "C04", "C06", "C09", "C10", "C11", "C12", "C20"], "kind_free_text": "explicit-state exploration of operation histories on real objects (state = history, dedup key = full structural dump), reference model in lock-step"},
         {"name": "E3", "path": "harness/src/sched.rs", "serves_properties": ["C20"], "kind_free_text": "preemption-bounded depth-first enumeration of thread schedules of real exmex code on shuttle coroutines, scheduling points at every call-back"},
         {"name": "E4", "path": "harness/src/sweep.rs", "serves_properties": ["C06", "C17"], "kind_free_text": "crash-contained exhaustive sweeps in journaled worker subprocesses"},
     ],
